@@ -1,6 +1,7 @@
 package main
 
 import (
+	"go/types"
 	"fmt"
 	"go/constant"
 	"go/token"
@@ -299,7 +300,9 @@ func propC14(c *Ctx, r *Report) {
 			if st.Verb != w.verb || st.Table != w.table || st.From != w.from || st.Conflict != "" {
 				bad = append(bad, fmt.Sprintf("statement %d is %s %s %s from %s, expected plain %s %s from %s", i+1, st.Verb, st.Conflict, st.Table, st.From, w.verb, w.table, w.from))
 			}
-			if i > 0 && !instrDominates(seq[i-1].Site, st.Site) {
+			if i > 0 && seq[i-1].Site == st.Site && orderedElementLoop(c, st.Site) {
+				// one Exec in a loop over an ordered list of texts: the catalogue lists them in element order
+			} else if i > 0 && !instrDominates(seq[i-1].Site, st.Site) {
 				bad = append(bad, fmt.Sprintf("statement %d does not follow statement %d on every path", i+1, i))
 			}
 			if st.Recv != "QA" || unwrap(st.RecvVal) != sc.Params[1] {
@@ -398,4 +401,59 @@ func firstN(s []string, n int) []string {
 		return s[:n]
 	}
 	return s
+}
+
+// orderedElementLoop: the query text of the call is the element of a range over a slice or array (not a map) and the
+// loop stops at the first error, so the texts run in element order.
+func orderedElementLoop(c *Ctx, site ssa.CallInstruction) bool {
+	cc := site.Common()
+	args := cc.Args
+	if !cc.IsInvoke() && len(args) > 0 {
+		args = args[1:]
+	}
+	ordered := false
+	for _, a := range args {
+		if b, ok := a.Type().Underlying().(*types.Basic); !ok || b.Kind() != types.String {
+			continue
+		}
+		switch x := a.(type) {
+		case *ssa.Extract:
+			if nx, ok := x.Tuple.(*ssa.Next); ok && x.Index == 2 {
+				if rg, ok := nx.Iter.(*ssa.Range); ok {
+					if _, isMap := rg.X.Type().Underlying().(*types.Map); !isMap {
+						ordered = true
+					}
+				}
+			}
+		case *ssa.UnOp:
+			if ia, ok := x.X.(*ssa.IndexAddr); ok && rangeIndexOver(ia.Index, ia.X) {
+				ordered = true
+			}
+		}
+	}
+	if !ordered {
+		return false
+	}
+	// the error of the call leaves the loop
+	ev, _ := errValueOf(site)
+	if ev == nil {
+		return false
+	}
+	l := innermostLoop(site.Parent(), site.Block())
+	if l == nil {
+		return false
+	}
+	for _, t := range nilTestsOf(c, ev) {
+		if !l.blocks[t.S] || reachAvoiding(t.S, map[*ssa.BasicBlock]bool{l.header: true})[site.Block()] {
+			continue
+		}
+		return true
+	}
+	// error branch outside the loop body (returns directly)
+	for _, t := range nilTestsOf(c, ev) {
+		if !l.blocks[t.S] {
+			return true
+		}
+	}
+	return false
 }
